@@ -59,3 +59,79 @@ for sid, (summ, needs) in M.items():
                          "demonstration with and without the change; then tools/seedmatrix.py (see results.json): patch applied to /repo, checks run, patch reverted")
     json.dump(m, open(p, "w"), indent=1)
 print("ok")
+
+M2 = {
+ "C01-r2.1": ("PessimisticLock::LockS with fetch_add + roll-back (as C01-1)", "writer store lands between the reader's fetch_add and fetch_sub"),
+ "C01-r2.2": ("CompositeGuard move constructor = default (moved-from keeps has_lock_)", "PrepareRead takes the shared fallback and the guard is move-constructed: S released while the live guard claims it"),
+ "C01-r2.3": ("MCSLock::UnlockSIX as tail resets the lock word first and waits for preceding sharers afterwards", "S granted, SIX on top, SIX released while the reader is active and nobody queued, then a new X"),
+ "C02-r2.1": ("PessimisticLock::LockS fetch_add/roll-back against plain-store unlocks", "writer acquires between check and fetch_add and releases before the roll-back: word becomes all ones"),
+ "C02-r2.2": ("XGuard takes the 64-bit word; ver + 1U becomes 64-bit arithmetic", "version 2^32-1: phantom S holder"),
+ "C02-r2.3": ("MCSLock::UnlockX tail branch: one strong CAS, else fetch_xor(kXLock)", "X/SIX request enqueues between the failed CAS and the fetch_xor: no hand-off"),
+ "C03-r2.1": ("XGuard move assignment releases the overwritten lock with the incoming guard's new_ver_", "move assignment onto an owning guard with colliding versions: old version republished"),
+ "C03-r2.2": ("PrepareRead slow path accepts the word reloaded by a failed CAS (mask includes X)", "a writer takes X between the reader's load and CAS: version handed out during X"),
+ "C03-r2.3": ("OptGuard::VerifyVersion compares the whole 64-bit word with the 32-bit version", "an S or SIX holder is present: spurious failure"),
+ "C04-r2.1": ("slot registration keyed on std::thread::id instead of heartbeat.expired()", "the OS reuses the id of a joined thread: successor skips registration, keeps the dead heartbeat"),
+ "C04-r2.2": ("protected list pre-sized to kMaxThreadNum entries including the two reserved ones", "capacity-1 guards alive at once: highest slots dropped"),
+ "C04-r2.3": ("EpochGuard caches the epoch sampled before EnterEpoch", "a forward between the sample and EnterEpoch: guard reports e but pins e+1"),
+ "C05-r2.1": ("claim CAS with expected value outside the loop (as C05-1)", "two consecutive lost claim races"),
+ "C05-r2.2": ("flag table rounded up to a power of two, index returned as ID", "capacity not a power of two: ID out of range"),
+ "C05-r2.3": ("IDs handed out from a lock-free stack of released IDs without version tag", "ABA: a claim preempted between reading head and successor while two others claim and one exits (>= 4 threads after a first wave)"),
+ "C06-r2.1": ("approximate class: constants folded into one scale_ factor", "last breakpoint below the largest variate for ~2% of (n, alpha): returns max+1"),
+ "C06-r2.2": ("hand-written copy assignment skips the table when shape matches", "moved-from object copy-assigned with the same shape: empty table, operator() throws"),
+ "C06-r2.3": ("closed-form shortcut ceil(u*n)-1 for alpha == 0", "engine output 0 or within ulps of a breakpoint"),
+ "C07-r2.1": ("PessimisticLock SGuard move assignment skips the release for guards of the same lock", "one owning S guard move-assigned over another owning S guard of the same lock"),
+ "C07-r2.2": ("XGuard::new_ver_ 64 bit (as C02-2)", "version 2^32-1"),
+ "C07-r2.3": ("MCS DowngradeToSIX tail case: check then single fetch_xor", "LockX/LockSIX enqueues between check and xor: converted grant never handed over"),
+ "C08-r2.1": ("PessimisticLock::UpgradeToX two-phase: fetch_or(X, acquire), relaxed wait, relaxed fetch_xor", "SIX holder upgrades while a reader is still inside"),
+ "C08-r2.2": ("OptGuard::TryLock* CAS success order relaxed", "a complete LockS..UnlockS by another thread between load and CAS"),
+ "C08-r2.3": ("MCS LockX/LockSIX: fast-path CAS acquire, then exchange relaxed + conditional fence", "two overlapping readers, one leaving before the writer enqueues and one after"),
+ "C09-r2.1": ("XGuard move assignment copies rhs first and unlocks with rhs's new_ver_", "move assignment over an owning guard with a different pending version"),
+ "C09-r2.2": ("DowngradeToSIX as one fetch_add of the version difference", "new version numerically smaller than the acquisition version: carry into the S counter"),
+ "C09-r2.3": ("LockX fast path + slow path lambda with its own cur: XGuard built from the stale outer cur", "LockX called while another X section is in flight: stale GetVersion, duplicate version"),
+ "C10-r2.1": ("LockSIX by fetch_or + DowngradeToSIX by fetch_xor (two sites)", "a LockSIX fetch_or loses to LockX, then the downgrade xor frees the lock"),
+ "C10-r2.2": ("OptimisticLock::UpgradeToX: drain wait then fetch_xor", "a reader enters between the drain load and the flip"),
+ "C10-r2.3": ("MCSLock::LockS tail-moved branch waits only for X", "holder in X/SIX chain, reader queued behind, another request behind the reader, then UpgradeToX"),
+ "C11-r2.1": ("LockS fast path: 'no writer' decision not re-checked after a failed CAS", "X enqueues between the sharer's load and CAS"),
+ "C11-r2.2": ("LockX links its node (word 0) before adding the inherited bits", "a sharer reads the new node between link and fetch_add"),
+ "C11-r2.3": ("LockS phase-1 wait predicate: word differs from the value my CAS installed", "a second sharer joins the same tail: first sharer passes the writer"),
+ "C12-r2.1": ("LockS takes its node lazily; join path no longer returns it", "LockS on a free lock loses the CAS race and joins: node leaked"),
+ "C12-r2.2": ("per-thread node cache becomes an unbounded vector", "writer takes X, reader joins while X held, writer releases first, repeatedly: live nodes grow"),
+ "C12-r2.3": ("UnlockX/UnlockSIX store 0 into their node after handing it over", "group with S joiners and a successor: write into recycled/freed node or wiped link"),
+ "C13-r2.1": ("PrepareRead fallback tests only the S counter", "word SIX|version: shared grant stacked on the SIX holder and never released"),
+ "C13-r2.2": ("CompositeGuard move assignment takes over rhs first and releases afterwards (wrong lock)", "owning guard reassigned to a guard of a different lock"),
+ "C13-r2.3": ("owning CompositeGuard releases with a plain store of the version", "another S/SIX taken while it is alive and the composite guard released first"),
+ "C14-r2.1": ("~HeartBeater frees the slot only if a weak_ptr taken before reset() is expired", "an observer holds GetHeartBeat().lock() while the owner exits"),
+ "C14-r2.2": ("oversubscribed threads sleep on a counter read after the failed sweep (wait/notify)", "lost wake-up"),
+ "C14-r2.3": ("scan upward from a global _min_free published by a plain store", "an exit of a lower ID between the claimer's exchange and its store: slot never scanned again"),
+ "C15-r2.1": ("ID reservation moved to its own thread_local IDHolder", "thread calls GetHeartBeat() before GetThreadID(): destructor order releases the ID first"),
+ "C15-r2.2": ("thread_local cache of the assigned ID re-arms hb after its destruction", "a thread_local object constructed earlier uses the ID manager in its destructor (use of a destroyed block-scope thread_local: UB)"),
+ "C15-r2.3": ("CollectProtectedEpochs uses lock() instead of expired()", "thread exit and re-claim of the ID during one scan iteration"),
+ "C16-r2.1": ("nested-guard support: LeaveEpoch restores the previous entered_ value", "two overlapping guards of one thread released non-LIFO (re-arm idiom)"),
+ "C16-r2.2": ("ForwardGlobalEpoch calls the public GetProtectedEpochs() for a capacity hint", "every ID held by a live thread: the coordinator spins for ever"),
+ "C16-r2.3": ("swap-based move assignment of EpochGuard", "move assignment from a named guard that stays in scope"),
+ "C17-r2.1": ("EnterEpoch straight-line: stores the newer epoch without validating again", "forward across a node boundary between load and re-check, then a stall of 512+ forwards"),
+ "C17-r2.2": ("ProtectedNode::GetProtectedEpochs walks one node only (if instead of while)", "worker stalled while two new nodes are created and the middle one stays linked"),
+ "C17-r2.3": ("scan_end_ bound raised/shrunk by CAS", "a thread registers inside the stale tail while the coordinator is between scanning the slot and shrinking"),
+ "C18-r2.1": ("cached reciprocal of the normalisation constant", "last bin 1-2^-53 for ~1/9 of (n, alpha)"),
+ "C18-r2.2": ("n <= 100 branch merged into the general path", "2 <= n <= 99: table normalised for 100 bins"),
+ "C18-r2.3": ("exact class scales every weight by n^alpha", "alpha*log10(n) > 308: inf/NaN"),
+ "C19-r2.1": ("lazy CDF construction (as C19-1)", "first use of a shared generator is concurrent"),
+ "C19-r2.2": ("thread_local probe cache keyed by the generator's address", "parameters at that address change (assignment / destroy+construct) and it is sampled again by the same thread"),
+ "C19-r2.3": ("range check through a non-template int64_t helper", "uint64_t min >= 2^63 and max < 2^63"),
+ "C20-r2.1": ("RemoveOutDatedLists frees only what lies behind the minimum protected node", "one guard held across many ranges: intermediate nodes never retired"),
+ "C20-r2.2": ("retired node parked in spare_node_ (slot assumed empty)", "a node retires while the spare slot is occupied: leak"),
+ "C20-r2.3": ("thread_local registered-manager cache keyed by the manager's address", "manager destroyed and a new one constructed at the same address while a worker thread survives"),
+}
+for sid, (summ, needs) in M2.items():
+    p = os.path.join(V, "seeded", sid, "meta.json")
+    if not os.path.exists(p):
+        print("missing", sid); continue
+    m = json.load(open(p))
+    m["summary"] = summ
+    m["needs"] = needs
+    m["breaks_property"] = m.get("target_property")
+    m["round"] = 2
+    m["what_was_run"] = ("seeded/verify.sh of the sub-agent re-run by the framework author in a scratch worktree (see verify_result.txt): repository test suite with the change, "
+                         "demonstration with and without the change; then tools/seedmatrix.py (see results.json): patch applied to /repo, checks run, patch reverted")
+    json.dump(m, open(p, "w"), indent=1)
+print("round 2 ok")
